@@ -398,6 +398,14 @@ class PseudoNetCDFFile(PseudoNetCDFSelfReg, object):
             ])
 
         timeunits = self.variables[timekey].units.strip()
+        # netCDF4/cftime reads an hour-only reference time
+        # ('hours since 2000-01-01 06Z') as midnight, getTimes reads it as
+        # 06:00; spell the hour out so that both agree
+        import re
+        hronly = re.match(
+            r'^(.* since \d+-\d+-\d+[ T]\d{1,2})\s*(Z|UTC)?$', timeunits)
+        if hronly is not None:
+            timeunits = hronly.group(1) + ':00:00'
         calendar = getattr(self.variables[timekey], 'calendar', 'standard')
         num = date2num(time, timeunits, calendar.strip())
         return num
